@@ -35,6 +35,7 @@ def fmtEvent : Event → String
   | .s2n s h => s!"s2n {s} {h}"
   | .s2s s => s!"s2s {s}"
   | .repair s h => s!"repair {s} {h}"
+  | .parentReady s ps ph => s!"pr {s} {ps} {ph}"
   | .standstill s cs vs =>
     s!"standstill {s} [{" / ".intercalate (sortStrs (cs.map fmtCert))}] [{" / ".intercalate (sortStrs (vs.map fmtVote))}]"
   | .panic => "panic"
